@@ -7,4 +7,6 @@ INVARIANT M_Name
 INVARIANT M_FailIsError
 INVARIANT M_OtherNotWrapped
 INVARIANT M_Outcome
+INVARIANT M_PoolClass
 CHECK_DEADLOCK FALSE
+CONSTANT KeyMergesWsIntoHttp = FALSE
